@@ -124,7 +124,9 @@ Definition threesum (p : Z) (m1 n1 : nat) (M1 : mat) (m2 n2 : nat) (M2 : mat)
     if negb (all_zero_l (pick (colv m1 M1 z1) R1) && is_pm1 alpha && is_pm1 beta &&
              all_zero_l (pick (rowv M2 z2) C2) && is_pm1 gamma && is_pm1 delta &&
              (cik =? get M2 i2 k2) && (cil =? get M2 i2 l2) && (cjk =? get M2 j2 k2) && (cjl =? get M2 j2 l2) &&
-             tu_bf 3 3 N) then KErr
+             (* over GF(3) the connecting matrix N must be totally unimodular (separation.h); over GF(2) signs are
+                meaningless and the only requirement is the nonsingular 2x2 block, checked by inv2 below *)
+             (if p =? 3 then tu_bf 3 3 N else true)) then KErr
     else
       match inv2 p cik cil cjk cjl with
       | None => KErr
